@@ -189,6 +189,14 @@ func checkExpr(t *rapid.T, rec *ev.Rec, e *node, src string, rows [][]*val) {
 				}
 			}
 
+			if w.divFirst {
+				if f, ok := kf.Known("C25", "const-numerator-division"); ok {
+					rec.Excluded("const-numerator-division")
+					rec.Known(f.What)
+					return
+				}
+			}
+
 			// ---- extend form: exact (value path, no reordering)
 			judgeExtend(t, rec, lr, xo, info)
 
@@ -199,6 +207,13 @@ func checkExpr(t *rapid.T, rec *ev.Rec, e *node, src string, rows [][]*val) {
 				// options.StrictCompareDb; CanBeEmpty: `raw where "" is less than everything`)
 				rec.Excluded("documented: \"\" ordered against boolean/number on stored encodings (where form)")
 				return
+			}
+			if w.negPrefix {
+				if f, ok := kf.Known("C25", "negative-number-packed-prefix-order"); ok {
+					rec.Excluded("negative-number-packed-prefix-order")
+					rec.Known(f.What)
+					return
+				}
 			}
 			if orWithEmptyRange(e) {
 				if f, ok := kf.Known("C25", "or-with-empty-range"); ok {
